@@ -25,6 +25,7 @@
 EXTENDS PegSem
 
 CONSTANTS RewriteNullable,   \* FALSE on the repaired tree; TRUE: pinned behaviour (consumes taken from the last alternative)
+          FirstPasses,       \* 0 on the repaired tree (analysing passes until stable); 1: the pinned tree's single analysing pass
           SkipThroughAll     \* FALSE on the repaired tree; TRUE: pinned propagation of the skip flag through & ! ? * and into nested choices
 
 \* characters are compared as code points; REST stands for every character not named in the grammar
@@ -94,6 +95,97 @@ Rewrite(B, S, e) ==
     [] e.op \in UnaryOps -> [e EXCEPT !.a = Rewrite(B, S, e.a)]
     [] OTHER -> e
 OptGrammar(B, A) == [r \in DOMAIN B |-> Rewrite(B, Sigma(B, A), B[r])]
+
+(* ---------- the analysis as the code runs it: passes over a rule cache --------------------- *)
+\* optimizeAlternates walks the tree from the first rule.  A rule is entered once per pass ("reached"); a rule met
+\* again - also while its own visit is still in progress - answers with its cache entry, i.e. with what the
+\* PREVIOUS pass computed for it (initially: consumes nothing, empty set).  Passes that only analyse come first,
+\* then one pass that also rewrites, taking its decisions from the values at hand when a choice is visited.
+\*   FirstPasses = 1  the pinned tree: one analysing pass.  A rule first visited while the rule it starts with is
+\*                    in progress gets a wrong entry, and the rewriting pass uses it when that rule is in turn in progress.
+\*   FirstPasses = 0  the repaired tree: analysing passes are repeated until no entry changes.
+\* Walk returns what the call returns (c, s), the rewritten expression (e) and the threaded state
+\* st = [reached, cache, body, changed].
+WalkState(B, cache) == [reached |-> {}, cache |-> cache, body |-> B, changed |-> FALSE]
+RECURSIVE Walk(_, _, _, _, _)
+WalkList(B, S, es, st, rw) ==   \* visit all elements in order; results per element
+  LET RECURSIVE F(_, _, _)
+      F(k, acc, cur) == IF k > Len(es) THEN [rs |-> acc, st |-> cur]
+                        ELSE LET r == Walk(B, S, es[k], cur, rw) IN F(k + 1, Append(acc, r), r.st)
+  IN F(1, <<>>, st)
+WalkAlt(B, S, e, st, rw) ==
+  LET W == WalkList(B, S, e.es, st, rw)
+      n == Len(e.es)
+      alts == [k \in 1..n |-> W.rs[k].e]
+      fs == [k \in 1..n |-> W.rs[k].s]
+      consumes == \A k \in 1..n : W.rs[k].c
+      all == UNION {fs[k] : k \in 1..n}
+      inter == [k \in 1..n |-> \E j \in (k + 1)..n : fs[k] \cap fs[j] # {}]
+      nInter == Cardinality({k \in 1..n : inter[k]})
+      keep == [c |-> consumes, s |-> all, e |-> AltE(alts), st |-> W.st]
+  IN IF ~rw \/ ~consumes \/ 2 + nInter >= n THEN keep
+     ELSE LET RECURSIVE Place(_, _, _)
+              Place(k, acc, maxv) ==
+                IF k > n THEN acc
+                ELSE IF inter[k] THEN Place(k + 1, acc, maxv)
+                ELSE LET len == Cardinality(fs[k]) item == [labels |-> fs[k], e |-> alts[k]] IN
+                     IF len > maxv THEN Place(k + 1, Append(acc, item), len) ELSE Place(k + 1, <<item>> \o acc, maxv)
+              un == Place(1, <<>>, 0)
+              u == UAlt(SubSeq(un, 1, Len(un) - 1), un[Len(un)].e)
+              ordered == SelectSeq([k \in 1..n |-> k], LAMBDA k : inter[k])
+          IN [keep EXCEPT !.e = IF ordered = <<>> THEN u ELSE AltE([k \in 1..Len(ordered) |-> alts[ordered[k]]] \o <<u>>)]
+WalkSeq(B, S, e, st, rw) ==
+  \* the first set is collected up to and including the first element that consumes; the rest is visited for its own sake
+  LET W == WalkList(B, S, e.es, st, rw)
+      n == Len(e.es)
+      C == {k \in 1..n : W.rs[k].c}
+      stop == IF C = {} THEN n ELSE CHOOSE k \in C : \A j \in C : k <= j
+  IN [c |-> C # {}, s |-> UNION {W.rs[k].s : k \in 1..stop}, e |-> [e EXCEPT !.es = [k \in 1..n |-> W.rs[k].e]], st |-> W.st]
+Walk(B, S, e, st, rw) ==
+  CASE e.op = "chr" -> [c |-> TRUE, s |-> {e.c}, e |-> e, st |-> st]
+    [] e.op = "rng" -> [c |-> TRUE, s |-> {c \in S : c # REST /\ c >= e.lo /\ c <= e.hi}, e |-> e, st |-> st]
+    [] e.op = "dot" -> [c |-> TRUE, s |-> S, e |-> e, st |-> st]
+    [] e.op = "ref" ->
+         IF e.r \notin DOMAIN B THEN [c |-> FALSE, s |-> {}, e |-> e, st |-> st]
+         ELSE IF e.r \in st.reached THEN [c |-> st.cache[e.r].consumes, s |-> st.cache[e.r].s, e |-> e, st |-> st]
+         ELSE LET r == Walk(B, S, B[e.r], [st EXCEPT !.reached = @ \cup {e.r}], rw)
+                  entry == [consumes |-> r.c, s |-> r.s]
+              IN [c |-> r.c, s |-> r.s, e |-> e,
+                  st |-> [r.st EXCEPT !.cache[e.r] = entry, !.body[e.r] = r.e, !.changed = @ \/ r.st.cache[e.r] # entry]]
+    [] e.op = "seq" -> WalkSeq(B, S, e, st, rw)
+    [] e.op = "alt" -> WalkAlt(B, S, e, st, rw)
+    [] e.op \in {"and", "not"} -> LET r == Walk(B, S, e.a, st, rw) IN [c |-> FALSE, s |-> {}, e |-> [e EXCEPT !.a = r.e], st |-> r.st]
+    [] e.op \in {"opt", "star"} -> LET r == Walk(B, S, e.a, st, rw) IN [c |-> FALSE, s |-> r.s, e |-> [e EXCEPT !.a = r.e], st |-> r.st]
+    [] e.op \in {"plus", "cap"} -> LET r == Walk(B, S, e.a, st, rw) IN [r EXCEPT !.e = [e EXCEPT !.a = r.e]]
+    [] OTHER -> [c |-> FALSE, s |-> {}, e |-> e, st |-> st]
+
+EmptyCache(B) == [r \in DOMAIN B |-> [consumes |-> FALSE, s |-> {}]]
+AnalysePass(B, S, first, cache) == Walk(B, S, Ref(first), WalkState(B, cache), FALSE).st
+RECURSIVE Analyse(_, _, _, _, _)
+Analyse(B, S, first, cache, left) ==
+  LET st == AnalysePass(B, S, first, cache) IN
+  IF left = 0 \/ ~st.changed THEN st.cache ELSE Analyse(B, S, first, st.cache, left - 1)
+\* the cache the rewriting pass starts from
+CacheBeforeRewrite(B, S, first) ==
+  IF FirstPasses = 1 THEN AnalysePass(B, S, first, EmptyCache(B)).cache
+  ELSE Analyse(B, S, first, EmptyCache(B), Cardinality(DOMAIN B))
+\* the grammar the code emits: rules reached from the first rule are rewritten, the others are left alone
+OptGrammarCode(B, A, first) ==
+  LET S == Sigma(B, A) IN Walk(B, S, Ref(first), WalkState(B, CacheBeforeRewrite(B, S, first)), TRUE).st.body
+\* rules the walk reaches
+RECURSIVE ReachFrom(_, _, _)
+RECURSIVE RefsOf(_)
+RefsOf(e) == CASE e.op = "ref" -> {e.r} [] e.op \in UnaryOps -> RefsOf(e.a)
+               [] e.op \in ListOps -> UNION {RefsOf(e.es[k]) : k \in 1..Len(e.es)} [] OTHER -> {}
+ReachFrom(B, todo, seen) ==
+  IF todo = {} THEN seen
+  ELSE LET r == CHOOSE r \in todo : TRUE
+           new == (RefsOf(B[r]) \cap DOMAIN B) \ (seen \cup {r})
+       IN ReachFrom(B, (todo \ {r}) \cup new, seen \cup {r})
+\* for a grammar without left recursion the passes compute the first sets of the idealised definition above
+TranscriptionAgrees(B, A, first) ==
+  LET O == OptGrammar(B, A) C == OptGrammarCode(B, A, first) R == ReachFrom(B, {first}, {}) IN
+  \A r \in DOMAIN B : C[r] = IF r \in R THEN O[r] ELSE B[r]
 
 (* ---------- meaning of the rewritten grammar ----------------------------------------------- *)
 \* class of the next character with respect to the label sets
